@@ -34,7 +34,8 @@ RULE = ("A: case = (knob-quantizer configuration incl. use_ste, float32 tensor, 
         "quantizer and an update step strictly between start and finish was "
         "applied. D: case = (tiny Sequential of QDense/QActivation with seeded "
         "constant weights, built lazily by fit() or pre-built with an InputLayer, "
-        "scheduler arguments, epochs x steps); one graph-mode model.fit with "
+        "scheduler arguments, epochs x steps, optionally split over two fit() "
+        "calls that re-use the scheduler); graph-mode model.fit with "
         "learning rate 0; non-trivial = the model output depends on the factor "
         "and the prescribed factor changes after the first training step. "
         "Distinct by hash of the whole case description.")
@@ -95,6 +96,7 @@ REQUIRED_LABELS = {
               "C:from_finish", "C:nonupdate_step", "C:has_nonknob",
               "C:has_singular", "C:prebuilt", "C:forward_checked",
               "C:has_quantized_linear", "C:has_act_quantizer",
+              "C:train_begin_again_after_positive", "D:two_fits",
               "D", "D:lazy", "D:prebuilt", "D:step", "D:epoch",
               "D:graph_mode", "D:sensitive",
               "D:factor_changes_after_first_step"],
@@ -789,6 +791,14 @@ class SchedSim(object):
       raise core.HarnessError("unknown op %r" % (op,))
     if name != "train_begin" and not self.begun:
       raise core.HarnessError("hook before on_train_begin in %r" % (op,))
+    # A later on_train_begin (training continued with another fit() and the
+    # same scheduler) is no update step: the applied factor stays what the
+    # schedule last set ("never decreases", "1 from finish on").
+    first_begin = name == "train_begin" and not self.begun
+    if name == "train_begin" and self.begun:
+      self.labels.add("C:train_begin_again")
+      if self.last is not None and self.last > 0:
+        self.labels.add("C:train_begin_again_after_positive")
 
     before = self._factors()
     cbf_before = self._cbf()
@@ -815,7 +825,7 @@ class SchedSim(object):
       return fails
     cbf = self._cbf()
 
-    if name == "train_begin":
+    if first_begin:
       self.begun = True
       if cbf is not None:
         if not 0.0 <= cbf <= 1.0:
@@ -948,6 +958,11 @@ def make_machine_c(ctx):
       self.do({"op": "epoch_end"})
 
     @rule()
+    def train_begin_again(self):
+      # training is continued: fit() called again with the same scheduler
+      self.do({"op": "train_begin"})
+
+    @rule()
     def forward(self):
       self.do({"op": "call"})
 
@@ -1006,8 +1021,10 @@ def _probe_cls():
 
 def prescribed_factors(sp, epochs, steps_per_epoch):
   """Factor the documented schedule prescribes for every training step of a
-  fit() that starts with a fresh callback (0.0 until the first update step:
-  'Set the qnoise_factor to 0.0 to pretrain without quantization')."""
+  training that starts with a fresh callback (0.0 until the first update step:
+  'Set the qnoise_factor to 0.0 to pretrain without quantization').  `epochs`
+  is the total over all fit() calls: continuing with the same scheduler
+  continues the count and is no update step by itself."""
   out = []
   last = 0.0
   pos = sp["initial_step_or_epoch"]
@@ -1038,8 +1055,11 @@ def oracle_d(ctx, case):
             "D:" + sp["freq_type"]]
   base = {"lazy": bool(case["lazy"]), "freq_type": sp["freq_type"]}
   x = G.fit_data(case["seed"])
-  n_steps = case["epochs"] * case["steps_per_epoch"]
-  want_f = prescribed_factors(sp, case["epochs"], case["steps_per_epoch"])
+  fits = case.get("fits") or [case["epochs"]]     # epochs of each fit()
+  n_steps = sum(fits) * case["steps_per_epoch"]
+  want_f = prescribed_factors(sp, sum(fits), case["steps_per_epoch"])
+  if len(fits) > 1:
+    labels.append("D:two_fits")
   if len(set(want_f[1:])) > 1 or (want_f and want_f[-1] != want_f[0]):
     labels.append("D:factor_changes_after_first_step")
 
@@ -1064,8 +1084,9 @@ def oracle_d(ctx, case):
             (int(probe.count.numpy()), np.array(probe.last.numpy()))))
     xs = np.tile(x, (case["steps_per_epoch"], 1))
     ys = np.zeros((xs.shape[0], width), np.float32)
-    model.fit(xs, ys, batch_size=G.FIT_BATCH, epochs=case["epochs"],
-              shuffle=False, verbose=0, callbacks=[cb, rec])
+    for ne in fits:
+      model.fit(xs, ys, batch_size=G.FIT_BATCH, epochs=ne, shuffle=False,
+                verbose=0, callbacks=[cb, rec])
   except Exception as e:  # pylint: disable=broad-except
     fails.append(("fit_raises", dict(core.exc_signature(e), **base),
                   repr(e)[:300]))
@@ -1114,7 +1135,11 @@ def oracle_d(ctx, case):
       i = int(np.argmax(d.reshape(-1)))
       # which factor did the step use, if any of the references?
       used = [g for g in sorted(refs) if np.allclose(y, refs[g], atol=1e-5)]
-      fails.append(("fit_step_output", dict(base, f=_fclass(f)),
+      sig = dict(base, f=_fclass(f))
+      if len(fits) > 1:
+        sig["fit"] = "first" if k < fits[0] * case["steps_per_epoch"] \
+            else "later"
+      fails.append(("fit_step_output", sig,
                     "training step %d: compiled step computed %r, prescribed "
                     "factor %r gives %r (max diff %.3g; step output matches "
                     "factor(s) %r)" % (k, y.reshape(-1)[i], f,
